@@ -9,6 +9,7 @@ import Drv.C13
 import Drv.C10
 import Drv.C15
 import Drv.C16
+import Drv.C17
 /-! `drv <model>`: executable models behind a one-line-in, one-line-out protocol. -/
 def main (args : List String) : IO UInt32 := do
   match args with
@@ -24,4 +25,5 @@ def main (args : List String) : IO UInt32 := do
   | ["c11"] => Drv.loop Drv.C10.step {}; return 0
   | ["c15"] => Drv.pureLoop Drv.C15.step; return 0
   | ["c16"] => Drv.pureLoop Drv.C16.step; return 0
+  | ["c17"] => Drv.pureLoop Drv.C17.step; return 0
   | _ => IO.eprintln "usage: drv <model>"; return 2
